@@ -377,16 +377,16 @@ __ebd_main_loop() {
 				;;
 			gen_metadata\ *|gen_ebuild_env\ *)
 				local __mode="depend"
-				local error_output
+				local __error_output
 				[[ ${com} == gen_ebuild_env* ]] && __mode="generate_env"
 				line=${com#* }
 				# capture sourcing stderr output
-				error_output=$(__ebd_process_metadata "${line}" "${__mode}" 2>&1 1>/dev/null)
+				__error_output=$(__ebd_process_metadata "${line}" "${__mode}" 2>&1 1>/dev/null)
 				if [[ $? -eq 0 ]]; then
 					__ebd_write_line "phases succeeded"
 				else
-					[[ -n ${error_output} ]] || error_output="ebd::${com% *} failed"
-					__ebd_write_line "phases failed ${error_output}"
+					[[ -n ${__error_output} ]] || __error_output="ebd::${com% *} failed"
+					__ebd_write_line "phases failed ${__error_output}"
 				fi
 				;;
 			alive)
